@@ -57,8 +57,8 @@ def hash_seeds(seed, n):
 
 def parse_config(cfg):
     """An interpreter configuration: "<PYTHONHASHSEED>[:flag[+flag]]" with flags
-    O (python -O), malloc_debug (PYTHONMALLOC=debug), dev (-X dev), preload (import d42's
-    sub-packages in another order before d42 itself)."""
+    O (python -O), malloc_debug (PYTHONMALLOC=debug), dev (-X dev), Wdep (-W error::DeprecationWarning),
+    preload (import d42's sub-packages in another order before d42 itself)."""
     s = str(cfg)
     h, _, fl = s.partition(":")
     return h, [f for f in fl.split("+") if f]
@@ -73,6 +73,8 @@ def interpreter_cmd_env(cfg):
         cmd.append("-O")
     if "dev" in flags:
         cmd += ["-X", "dev"]
+    if "Wdep" in flags:
+        cmd += ["-W", "error::DeprecationWarning"]       # what `pytest -W error` users run with
     if "malloc_debug" in flags:
         env["PYTHONMALLOC"] = "debug"
     if "preload" in flags:
@@ -227,7 +229,7 @@ def run_check(pid, tier, seed, workers=None, cases=None, quiet=False):
     # interpreter options are one more configuration dimension: a few sweep workers run under -O
     # (asserts stripped, __debug__ false) or with the debug allocator
     hs = list(hs)
-    for i, flag in ((3, "O"), (11, "O"), (7, "malloc_debug")):
+    for i, flag in ((3, "O"), (11, "O"), (7, "malloc_debug"), (13, "Wdep")):
         if i < len(hs):
             hs[i] = "%s:%s" % (hs[i], flag)
     echo_hs = 0 if pid == "C07" else 987654321
@@ -264,7 +266,7 @@ def run_check(pid, tier, seed, workers=None, cases=None, quiet=False):
         by_hs = {}
         for e in directed:
             by_hs.setdefault(e["directed"].get("pythonhashseed", 0), []).append(e)
-        for h, ents in sorted(by_hs.items()):
+        for h, ents in sorted(by_hs.items(), key=lambda kv: str(kv[0])):
             jobs.append(({"property": pid, "mode": "directed", "entries": ents, "tier_cfg": cfg}, h))
     results = run_workers(jobs, wall)
 
